@@ -24,7 +24,7 @@ pub enum SOp {
     /// retain(|c| c as u32 % m != 0)
     Retain { m: u32 },
     /// drain(range), take `take` chars, then drop (or forget) the Drain
-    Drain { r: Rg, take: usize, forget: bool },
+    Drain { r: Rg, take: usize, forget: bool, #[serde(default)] back: usize },
     ReplaceRange { r: Rg, s: Vec<u32> },
     SplitOff { at: i64 },
     Extend { s: Vec<u32> },
@@ -38,6 +38,22 @@ pub enum SOp {
     FromUtf8 { b: Vec<u8> },
     FromUtf8Lossy { b: Vec<u8> },
     FromUtf16 { u: Vec<u16> },
+    /// Extend with pieces of another shape: 0 &str, 1 the twin's own String, 2 &char (pieces' chars), 3 Cow<str>, 4 std String
+    ExtendStrs { parts: Vec<Vec<u32>>, kind: u8 },
+    /// `s + &t` (assign = false) or `s += &t`
+    Add { s: Vec<u32>, assign: bool },
+    /// into_bytes() and from_utf8() back
+    IntoBytesRoundTrip,
+    /// from_iter_in / FromIterator<char>
+    FromIter { s: Vec<u32> },
+    /// unsafe from_utf8_unchecked over the encoding of `s`
+    FromUtf8Unchecked { s: Vec<u32> },
+    /// make_ascii_uppercase through a mutable view: 0 as_mut_str, 1 DerefMut, 2 BorrowMut, 3 IndexMut<range>
+    AsciiUpper { via: u8, r: Rg },
+    /// unsafe as_mut_vec().push(ascii byte)
+    AsMutVecPush { c: u32 },
+    /// every read-only view and comparison against `o` must agree with the same on as_str()
+    Views { o: Vec<u32> },
     PanicAt { n: i64 },
     /// bumpalo only: forbid (on = true) or allow the arena to obtain more memory; growth then fails with an
     /// unwinding panic, after which the string must still be valid UTF-8
@@ -263,16 +279,22 @@ macro_rules! sinterp {
                                 }
                             });
                         }
-                        SOp::Drain { r, take, forget } => {
+                        SOp::Drain { r, take, forget, back } => {
                             let mut ev = sbase("drain");
                             ev.rg = [r.sk as i64, r.s, r.ek as i64, r.e];
                             ev.a = take as i64;
+                            ev.b = back as i64;
                             ev.flag = forget as i64;
                             self.call(ev, |s, ev| {
                                 if let Some(x) = s.s.as_mut() {
                                     let mut d = x.drain(r.bounds());
                                     for _ in 0..take {
                                         if let Some(c) = d.next() {
+                                            ev.ret.push(c as u32 as i64);
+                                        }
+                                    }
+                                    for _ in 0..back {
+                                        if let Some(c) = d.next_back() {
                                             ev.ret.push(c as u32 as i64);
                                         }
                                     }
@@ -439,6 +461,147 @@ macro_rules! sinterp {
                                 Err(_) => ev.res = "err".into(),
                             });
                         }
+                        SOp::ExtendStrs { parts, kind } => {
+                            let mut ev = sbase("extend_strs");
+                            ev.a = kind as i64;
+                            ev.s = parts.iter().flat_map(|p| p.iter().map(|&c| c as i64)).collect();
+                            let ts: Vec<std::string::String> = parts.iter().map(|p| st(p)).collect();
+                            self.call(ev, |s, _| {
+                                let bump = s.bump;
+                                if let Some(x) = s.s.as_mut() {
+                                    match kind {
+                                        0 => x.extend(ts.iter().map(|t| { tick(); t.as_str() })),
+                                        1 => x.extend(ts.iter().map(|t| { tick(); let o: $S = sfrom!($modname, bump, t); o })),
+                                        2 => {
+                                            let cs: Vec<char> = ts.iter().flat_map(|t| t.chars()).collect();
+                                            x.extend(cs.iter().map(|c| { tick(); c }))
+                                        }
+                                        3 => x.extend(ts.iter().enumerate().map(|(i, t)| {
+                                            tick();
+                                            if i % 2 == 0 { std::borrow::Cow::Borrowed(t.as_str()) } else { std::borrow::Cow::Owned(t.clone()) }
+                                        })),
+                                        _ => x.extend(ts.iter().map(|t| { tick(); t.clone() })),
+                                    }
+                                }
+                            });
+                        }
+                        SOp::Add { s: cs, assign } => {
+                            let mut ev = sbase(if assign { "add_assign" } else { "add" });
+                            ev.s = cs.iter().map(|&c| c as i64).collect();
+                            let t = st(&cs);
+                            self.call(ev, |s, _| {
+                                if assign {
+                                    if let Some(x) = s.s.as_mut() {
+                                        *x += &t;
+                                    }
+                                } else if let Some(x) = s.s.take() {
+                                    s.s = Some(x + &t);
+                                }
+                            });
+                        }
+                        SOp::IntoBytesRoundTrip => {
+                            let ev = sbase("into_bytes_roundtrip");
+                            self.call(ev, |s, ev| {
+                                if let Some(x) = s.s.take() {
+                                    let want: Vec<u8> = x.as_bytes().to_vec();
+                                    let v = x.into_bytes();
+                                    ev.retn = (&v[..] == &want[..]) as i64;
+                                    s.s = Some(<$S>::from_utf8(v).ok().unwrap());
+                                } else {
+                                    ev.retn = 1;
+                                }
+                            });
+                        }
+                        SOp::FromIter { s: cs } => {
+                            let mut ev = sbase("from_iter");
+                            ev.s = cs.iter().map(|&c| c as i64).collect();
+                            self.call(ev, |s, _| {
+                                let it = cs.iter().map(|&c| { tick(); char::from_u32(c).unwrap() });
+                                s.s = Some(sfromiter!($modname, s.bump, it));
+                            });
+                        }
+                        SOp::FromUtf8Unchecked { s: cs } => {
+                            let mut ev = sbase("from_utf8_unchecked");
+                            ev.s = cs.iter().map(|&c| c as i64).collect();
+                            let t = st(&cs);
+                            self.call(ev, |s, _| {
+                                s.s = Some(sunchecked!($modname, s.bump, t.as_bytes()));
+                            });
+                        }
+                        SOp::AsciiUpper { via, r } => {
+                            let mut ev = sbase("ascii_upper");
+                            ev.a = via as i64;
+                            ev.rg = if via == 3 { [r.sk as i64, r.s, r.ek as i64, r.e] } else { [0, 0, 0, 0] };
+                            if via == 3 && r.sk == 2 {
+                                return; // no IndexMut impl for ranges with an excluded start
+                            }
+                            self.call(ev, |s, _| {
+                                if let Some(x) = s.s.as_mut() {
+                                    match via {
+                                        0 => x.as_mut_str().make_ascii_uppercase(),
+                                        1 => { let t: &mut str = &mut *x; t.make_ascii_uppercase() }
+                                        2 => { let t: &mut str = std::borrow::BorrowMut::borrow_mut(x); t.make_ascii_uppercase() }
+                                        _ => {
+                                            let (a, b) = (ub(r.s), ub(r.e));
+                                            let t: &mut str = match (r.sk, r.ek) {
+                                                (0, 0) => &mut x[..],
+                                                (0, 2) => &mut x[..b],
+                                                (0, _) => &mut x[..=b],
+                                                (_, 0) => &mut x[a..],
+                                                (_, 2) => &mut x[a..b],
+                                                (_, _) => &mut x[a..=b],
+                                            };
+                                            t.make_ascii_uppercase()
+                                        }
+                                    }
+                                }
+                            });
+                        }
+                        SOp::AsMutVecPush { c } => {
+                            let mut ev = sbase("as_mut_vec_push");
+                            ev.s = vec![(c & 0x7f) as i64];
+                            self.call(ev, |s, _| {
+                                if let Some(x) = s.s.as_mut() {
+                                    unsafe { x.as_mut_vec().push((c & 0x7f) as u8) };
+                                }
+                            });
+                        }
+                        SOp::Views { o } => {
+                            let mut ev = sbase("str_views");
+                            ev.s = o.iter().map(|&c| c as i64).collect();
+                            let ot = st(&o);
+                            self.call(ev, |s, ev| {
+                                let _g = rec::pause();
+                                let bump = s.bump;
+                                let mut bad: i64 = 0;
+                                let mut chk = |i: u32, ok: bool| {
+                                    if !ok {
+                                        bad |= 1 << i;
+                                    }
+                                };
+                                if let Some(x) = s.s.as_ref() {
+                                    use std::borrow::Borrow;
+                                    let want: std::string::String = std::string::String::from_utf8_lossy(x.as_bytes()).into_owned();
+                                    let w: &str = want.as_str();
+                                    let y: $S = sfrom!($modname, bump, &ot);
+                                    let o: &str = ot.as_str();
+                                    chk(0, x.as_str() == w && &**x == w && x.len() == w.len() && x.is_empty() == w.is_empty());
+                                    chk(1, AsRef::<str>::as_ref(x) == w && AsRef::<[u8]>::as_ref(x) == w.as_bytes() && Borrow::<str>::borrow(x) == w);
+                                    chk(2, x.as_bytes() == w.as_bytes());
+                                    chk(3, (*x == y) == (w == o) && (*x != y) == (w != o));
+                                    chk(4, (*x == *o) == (w == o) && (*o == *x) == (w == o));
+                                    chk(5, (*x == o) == (w == o) && (o == *x) == (w == o));
+                                    chk(6, (*x != *o) == (w != o) && (*x != o) == (w != o));
+                                    chk(7, sviews_cross!($modname, x, ot, w));
+                                    chk(8, format!("{}", x) == format!("{}", w) && format!("{:?}", x) == format!("{:?}", w));
+                                    chk(9, format!("{:>7}|{:<6}|{:^9.2}", x, x, x) == format!("{:>7}|{:<6}|{:^9.2}", w, w, w));
+                                    chk(10, crate::coll::hash_of(x) == crate::coll::hash_of(&w));
+                                    chk(11, x.chars().rev().eq(w.chars().rev()) && x.char_indices().count() == w.chars().count());
+                                    chk(12, x.capacity() >= x.len());
+                                }
+                                ev.retn = bad;
+                            });
+                        }
                         SOp::ArenaNoGrow { on } => {
                             if $im == "bump" {
                                 self.nogrow = on;
@@ -495,6 +658,30 @@ macro_rules! sfrom {
     (bumps, $bump:expr, $t:expr) => { bumpalo::collections::String::from_str_in($t, $bump) };
     (stds, $bump:expr, $t:expr) => { std::string::String::from($t.as_str()) };
 }
+macro_rules! sfromiter {
+    (bumps, $bump:expr, $it:expr) => { bumpalo::collections::String::from_iter_in($it, $bump) };
+    (stds, $bump:expr, $it:expr) => { $it.collect::<std::string::String>() };
+}
+macro_rules! sunchecked {
+    (bumps, $bump:expr, $b:expr) => {{
+        let mut v = bumpalo::collections::Vec::new_in($bump);
+        v.extend_from_slice_copy($b);
+        unsafe { bumpalo::collections::String::from_utf8_unchecked(v) }
+    }};
+    (stds, $bump:expr, $b:expr) => { unsafe { std::string::String::from_utf8_unchecked($b.to_vec()) } };
+}
+// comparisons with std's String and Cow<str> (both directions)
+macro_rules! sviews_cross {
+    (bumps, $x:expr, $ot:expr, $w:expr) => {{
+        let c: std::borrow::Cow<str> = std::borrow::Cow::Borrowed($ot.as_str());
+        (($ot == *$x) == ($w == $ot.as_str())) && ((*$x == $ot) == ($w == $ot.as_str())) && (($ot != *$x) == ($w != $ot.as_str()))
+            && ((c == *$x) == ($w == $ot.as_str())) && ((*$x == c) == ($w == $ot.as_str())) && ((c != *$x) == ($w != $ot.as_str()))
+    }};
+    (stds, $x:expr, $ot:expr, $w:expr) => {{
+        let c: std::borrow::Cow<str> = std::borrow::Cow::Borrowed($ot.as_str());
+        (($ot == *$x) == ($w == $ot.as_str())) && ((c == *$x) == ($w == $ot.as_str())) && ((*$x == c) == ($w == $ot.as_str()))
+    }};
+}
 macro_rules! sinto {
     (bumps, $x:expr) => { $x.into_bump_str() };
     (stds, $x:expr) => { $x.leak() };
@@ -508,6 +695,7 @@ macro_rules! sfromutf8 {
             Err(e) => {
                 let u = e.utf8_error();
                 let same = e.as_bytes() == &$b[..];
+                let same = same && &e.into_bytes()[..] == &$b[..];
                 Err((u.valid_up_to(), u.error_len().map(|x| x as i64).unwrap_or(-1), same))
             }
         }
